@@ -363,7 +363,7 @@ PairOK(s, f, g) ==
   /\ CASE f[1] = "F" /\ g[1] = "F" ->
             LET a == SeedTab[s].sf[f[2]]   b == SeedTab[s].sf[g[2]] IN
             /\ a.off # b.off
-            /\ \E x \in a.grp \cap b.grp : x = "ctor" \/ "any" \in SeedTab[s].grpOK
+            /\ {x \in a.grp \cap b.grp : x = "ctor" \/ "any" \in SeedTab[s].grpOK} # {}     \* (a set, not \E: TLC would branch per witness)
        [] f[1] = "F" /\ g[1] = "T" -> "ctor" \in SeedTab[s].sf[f[2]].grp /\ g[2] \in SeedTab[s].keytrunc
        [] f[1] = "S" /\ g[1] = "S" -> Tier = "thorough" /\ f[2] # g[2] /\ f[2] < 16 /\ g[2] < 16 /\ f[3] = "ff" /\ g[3] = "ff"
        [] f[1] = "S" /\ g[1] = "T" -> Tier = "thorough" /\ g[2] \in SeedTab[s].keytrunc /\ f[3] = "ff"
